@@ -91,8 +91,8 @@ theorem retain_stopped (api : EvalApi) (brs : List (Expr × Block)) (st : Retain
 def elseAfter (st : Retain Block) (els1 : Option Block) : Option Block :=
   if st.keepNext then els1 else st.replaceElse
 
-theorem retain_refines {api : EvalApi} {good : Expr → Prop} (hs : EvalSound api good)
-    {N : NumOps} (call : CallFn N) (ρ : ExtOracle N) (k : Nat) (env : Env N) (els1 : Option Block)
+theorem retain_refines {N : NumOps} {api : EvalApi} {good : Expr → Prop} (hs : EvalSound N api good)
+    (call : CallFn N) (ρ : ExtOracle N) (k : Nat) (env : Env N) (els1 : Option Block)
     (brs : List (Expr × Block)) (hg : condsGood api good brs) (σ σ' : State N) (ctl : Ctl N)
     (h : sem call ρ k env brs els1 σ = .ok ctl σ') :
     sem call ρ k env (retainBranches api brs {}).1 (elseAfter (retainBranches api brs {}).2 els1) σ = .ok ctl σ' := by
@@ -231,8 +231,8 @@ def replSem {N : NumOps} (call : CallFn N) (ρ : ExtOracle N) (k : Nat) (env : E
   | s :: _, σ => execS call ρ k env s σ
 
 /-- `simplify_if_statement`: every error-free run of the `if` statement is a run of its replacement -/
-theorem simplifyIfStatement_refines {api : EvalApi} {good : Expr → Prop} (hs : EvalSound api good)
-    {N : NumOps} (call : CallFn N) (ρ : ExtOracle N) (k : Nat) (env : Env N)
+theorem simplifyIfStatement_refines {N : NumOps} {api : EvalApi} {good : Expr → Prop} (hs : EvalSound N api good)
+    (call : CallFn N) (ρ : ExtOracle N) (k : Nat) (env : Env N)
     (brs : List (Expr × Block)) (els : Option Block) (hg : condsGood api good brs) (σ σ' : State N) (ctl : Ctl N)
     (h : execS call ρ k env (.ifs brs els) σ = .ok ctl σ') :
     replSem call ρ k env (simplifyIfStatement api brs els) σ = .ok ctl σ' := by
@@ -308,8 +308,8 @@ def stmtsGood (api : EvalApi) (good : Expr → Prop) : List Stmt → Prop
   | .ifs brs _ :: rest => condsGood api good brs ∧ stmtsGood api good rest
   | _ :: rest => stmtsGood api good rest
 
-theorem processStmts_refines {api : EvalApi} {good : Expr → Prop} (hs : EvalSound api good)
-    {N : NumOps} (call : CallFn N) (ρ : ExtOracle N) (k : Nat)
+theorem processStmts_refines {N : NumOps} {api : EvalApi} {good : Expr → Prop} (hs : EvalSound N api good)
+    (call : CallFn N) (ρ : ExtOracle N) (k : Nat)
     (stmts : List Stmt) (hg : stmtsGood api good stmts) (env : Env N) (σ σ' : State N) (ctl : Ctl N)
     (h : execSs call ρ k env stmts σ = .ok ctl σ') :
     execSs call ρ k env (processStmts api stmts) σ = .ok ctl σ' := by
@@ -358,8 +358,8 @@ theorem processStmts_refines {api : EvalApi} {good : Expr → Prop} (hs : EvalSo
       exact step (by simpa [stmtsGood] using hg) _ (fun _ _ hx => hx)
 
 /-- the block hook of `remove_unused_if_branch` refines -/
-theorem processBlock_refines {api : EvalApi} {good : Expr → Prop} (hs : EvalSound api good)
-    {N : NumOps} (call : CallFn N) (ρ : ExtOracle N) (k : Nat) (env : Env N)
+theorem processBlock_refines {N : NumOps} {api : EvalApi} {good : Expr → Prop} (hs : EvalSound N api good)
+    (call : CallFn N) (ρ : ExtOracle N) (k : Nat) (env : Env N)
     (stmts : List Stmt) (last : Option Last) (hg : stmtsGood api good stmts) (σ σ' : State N) (ctl : Ctl N)
     (h : execB call ρ k env (.mk stmts last) σ = .ok ctl σ') :
     execB call ρ k env (processBlock api (.mk stmts last) ()).1 σ = .ok ctl σ' := by
